@@ -1,1 +1,168 @@
-fn main(){}
+//! vcheck — bounded-exhaustive checks of the stun-proto properties (see /verif/DESIGN.md).
+//!
+//! usage: vcheck <C01..C20|selftest> [--tier quick|thorough] [--replay <file>]
+//! exit: 0 held (KNOWN-FINDING lines possible), 1 VIOLATION, 2 machinery failure.
+
+mod agent;
+mod common;
+mod engine_in;
+mod engine_sm;
+mod props;
+mod real;
+mod refimpl;
+
+use common::*;
+use serde_json::Value;
+use std::time::Instant;
+
+fn machinery(msg: &str) -> ! {
+    eprintln!("MACHINERY-FAILURE: {msg}");
+    std::process::exit(2)
+}
+
+fn selftests() {
+    let mut fails = Vec::new();
+    fails.extend(refimpl::crypto::selftest());
+    fails.extend(refimpl::wire::selftest());
+    fails.extend(refimpl::attrs::selftest());
+    fails.extend(agent::spec::selftest());
+    if !fails.is_empty() {
+        for f in &fails {
+            eprintln!("selftest: {f}");
+        }
+        machinery("reference self-tests failed");
+    }
+}
+
+fn main() {
+    let args: Vec<String> = std::env::args().collect();
+    if args.len() < 2 {
+        machinery("usage: vcheck <Cxx|selftest> [--tier quick|thorough] [--replay file]");
+    }
+    let prop = args[1].clone();
+    let mut tier = match std::env::var("VERIF_TIER").as_deref() {
+        Ok("thorough") => Tier::Thorough,
+        _ => Tier::Quick,
+    };
+    let mut replay: Option<String> = None;
+    let mut i = 2;
+    while i < args.len() {
+        match args[i].as_str() {
+            "--tier" => {
+                i += 1;
+                tier = match args.get(i).map(|s| s.as_str()) {
+                    Some("quick") => Tier::Quick,
+                    Some("thorough") => Tier::Thorough,
+                    _ => machinery("bad --tier"),
+                };
+            }
+            "--replay" => {
+                i += 1;
+                replay = Some(args.get(i).cloned().unwrap_or_else(|| machinery("--replay needs a file")));
+            }
+            other => machinery(&format!("unknown argument {other}")),
+        }
+        i += 1;
+    }
+    let seed: u64 = std::env::var("VERIF_SEED").ok().and_then(|s| s.parse().ok()).unwrap_or(1);
+    let threads: usize = std::env::var("VERIF_THREADS")
+        .ok()
+        .and_then(|s| s.parse().ok())
+        .unwrap_or_else(|| std::thread::available_parallelism().map(|n| n.get()).unwrap_or(4));
+    rayon::ThreadPoolBuilder::new()
+        .num_threads(threads)
+        .stack_size(16 << 20)
+        .build_global()
+        .unwrap_or_else(|e| machinery(&format!("thread pool: {e}")));
+    install_panic_hook();
+    let start = Instant::now();
+    selftests();
+    if prop == "selftest" {
+        println!("selftest ok ({:.2}s)", start.elapsed().as_secs_f64());
+        return;
+    }
+    if !props::ALL.contains(&prop.as_str()) {
+        machinery(&format!("unknown property {prop}"));
+    }
+
+    if let Some(path) = replay {
+        let body = std::fs::read_to_string(&path).unwrap_or_else(|e| machinery(&format!("read {path}: {e}")));
+        let v: Value = serde_json::from_str(&body).unwrap_or_else(|e| machinery(&format!("parse {path}: {e}")));
+        let rp = if v.get("replay").is_some() { v["replay"].clone() } else { v };
+        let found = props::replay(&prop, &rp);
+        if found.is_empty() {
+            println!("replay: no violation of {prop} on this case");
+            return;
+        }
+        for f in &found {
+            println!("replay: {} — {}\n  expected: {}\n  observed: {}", f.signature, f.what, f.expected, f.observed);
+        }
+        println!("VIOLATION property={prop} replay={path}");
+        std::process::exit(1);
+    }
+
+    let ctx = Ctx { prop: prop.clone(), tier, seed, start, threads };
+    let rep = match guarded(|| props::run(&ctx)) {
+        Ok(r) => r,
+        Err(p) => machinery(&format!("engine panicked: {} at {}", p.message, p.location)),
+    };
+
+    let findings = load_findings();
+    let mut unlisted = 0usize;
+    let mut notes = Vec::new();
+    let mut n = 0usize;
+    let total_viol: u64 = rep.acc.violations.values().map(|(_, c)| *c).sum();
+    for (sig, (v, count)) in &rep.acc.violations {
+        // a violation must reproduce, twice, from its replay artefact alone
+        let r1: Vec<String> = props::replay(&prop, &v.replay).into_iter().map(|x| x.signature).collect();
+        let r2: Vec<String> = props::replay(&prop, &v.replay).into_iter().map(|x| x.signature).collect();
+        if r1 != r2 || !r1.contains(sig) {
+            eprintln!("signature {sig}: replay gave {r1:?} then {r2:?}");
+            let path = write_replay(v, 900 + n);
+            machinery(&format!("violation does not reproduce deterministically from its replay file {path}"));
+        }
+        if v.property != prop {
+            // attributed to another property (shared transition function): evidence note only
+            notes.push(format!("blocked by a violation attributed to {}: {} (x{})", v.property, sig, count));
+            continue;
+        }
+        if let Some(k) = findings.iter().find(|f| f.status == "known" && f.property == prop && &f.signature == sig) {
+            println!("KNOWN-FINDING: property={} {} [{} occurrence(s), signature {}]", prop, k.what, count, sig);
+            notes.push(format!("known finding {sig} x{count}"));
+            continue;
+        }
+        n += 1;
+        unlisted += 1;
+        let path = write_replay(v, n);
+        println!("  {} — {} (x{})\n    expected: {}\n    observed: {}", sig, v.what, count, v.expected, v.observed);
+        println!("VIOLATION property={} replay={}", prop, path);
+    }
+    let wall = start.elapsed().as_secs_f64();
+    if let Err(e) = write_evidence_raw(&prop, tier, seed, &rep, wall, total_viol as usize, &notes) {
+        machinery(&format!("cannot write evidence: {e}"));
+    }
+    println!(
+        "{} {}: evaluations={} states={} transitions={} validated={} violations={} exhaustive={} wall={:.1}s",
+        prop,
+        tier.name(),
+        rep.acc.evaluations,
+        if rep.states > 0 { rep.states } else { rep.acc.nontrivial },
+        if rep.transitions > 0 { rep.transitions } else { rep.acc.evaluations },
+        rep.acc.validated,
+        total_viol,
+        rep.exhaustive && rep.caps_hit.is_empty(),
+        wall
+    );
+    for (k, v) in &rep.acc.outcomes {
+        println!("  outcome {k}: {v}");
+    }
+    for c in &rep.caps_hit {
+        println!("  cap hit: {c}");
+    }
+    if unlisted > 0 {
+        std::process::exit(1);
+    }
+    if !rep.missing_witnesses.is_empty() {
+        machinery(&format!("vacuous exploration, witnesses not reached: {:?}", rep.missing_witnesses));
+    }
+}
